@@ -25,6 +25,10 @@ POOL = ["a", "a!", "a+/k", "a-b/x", "a/y", "a/y-z", "a/y/z", "a/yz", "b/a"]
 EDGES = ["a", "a-b", "a!", "b", "a.b", "ab", "a+", "x", "#", "a,b", "Z"]
 WORD_ROOTS = ["a", "b", "ab", "x", "Z", "flow"]  # roots matching \w+: the names look like taxa
 UNCLEAN_EDGES = EDGES + ["", ".", "..", " "]
+# edges whose first character lies at the end of the Basic Multilingual Plane or beyond it (taxon names are arbitrary
+# text: `notation/set/𝔽_2`): a scan of the sorted names bounded by a sentinel such as P + "/\uffff" stops before them
+# (seed C10-m)
+WIDE_EDGES = ["\U0001d53d_2", "\uffff", "\uffffz", "\U0001f600", "\U00010000", "\ufffd", "\ud7ff", "é", "~", "\x7f"]
 
 
 def canon(r):
@@ -284,14 +288,15 @@ def random_clean(rng, max_names, max_depth, max_count, n_spans, word_roots=False
     k = rng.randint(0, max_names)
     names = set()
     roots = rng.sample(WORD_ROOTS if word_roots else EDGES, rng.randint(1, 3))
+    edges = EDGES[:7] + (WIDE_EDGES if rng.random() < 0.3 else [])
     while len(names) < k:
         depth = rng.randint(1, max_depth)
-        parts = [rng.choice(roots)] + [rng.choice(EDGES[:7]) for _ in range(depth - 1)]
+        parts = [rng.choice(roots)] + [rng.choice(edges) for _ in range(depth - 1)]
         name = "/".join(parts)
         names.add(name)
         if rng.random() < 0.5 and len(names) < k and names:
             base = rng.choice(sorted(names))
-            names.add(base + "/" + rng.choice(EDGES[:7]))
+            names.add(base + "/" + rng.choice(edges))
     out = []
     for n in sorted(names):
         spans = rng.sample(range(n_spans), rng.randint(1, n_spans))
